@@ -320,7 +320,7 @@ def r20_8(ctx):
         m = p.resolve_method("Mailbox", nm)
         if m is not None and any(isinstance(x, ast.Subscript) and norm(x.value) in ("self._uid_to_idx", "self._msg_key_to_idx") for x in body_walk(m.node)):
             readers.append(m)
-    ctx.floor("R20.8", len(unq), 2, "Mailbox methods called by the POP3 handler outside the command queue")
+    ctx.floor("R20.8", len(unq), 1, "Mailbox methods called by the POP3 handler outside the command queue")
     if not window:
         ctx.ok("R20.8", where(ex), "expunge() rebuilds the reverse index before it awaits anything: no stale window")
         return
